@@ -43,7 +43,10 @@ func (e *Exec) openStream(ctx context.Context, real string) (*streamSess, error)
 	e.nstream++
 	actor := fmt.Sprintf("%s-stream-%d", e.actor, e.nstream)
 	h := newHold()
+	// the reader's transactions are let through one at a time, the sender's fetches stay parked;
+	// either set of names identifies them (robust against renaming one of the two sides)
 	h.pass = []string{"MessageStreamer).doAcksNacks", "MessageStreamer).doDelay"}
+	h.park = []string{"GetSubscriptionMessages)"}
 	holds.Store(actor, h)
 	sctx, cancel := context.WithCancel(world.ActorCtx(ctx, actor))
 	stream, err := e.W.Sub.StreamingPull(sctx)
